@@ -32,7 +32,7 @@ def main():
                   'a scratch worktree',
         'author_tests_run': meta.get('tests_run'),
         'demo_cmd': 'cd <scratch worktree with patch applied> && '
-                    '/tmp/iso.sh env PYTHONPATH=<worktree> /venv/bin/python '
+                    '/verif/tools/iso.sh env PYTHONPATH=<worktree> /venv/bin/python '
                     'demo.py   (iso.sh = unshare -n + loopback up)',
         'confirmed_by_me': {
             'demo_exit_on_unchanged_source': conf.get('demo_on_clean_exit'),
